@@ -15,3 +15,66 @@ Theorem C12_kernel_string_writes_the_tree : forall t, names_ok t = true ->
   kernel_string (fst (flatten t)) (snd (flatten t)) = Ok (join_names [32%N] (tree_texts t)).
 Proof. exact kernel_string_of_tree. Qed.
 Print Assumptions C12_kernel_string_writes_the_tree.
+(* ---- appended: kernel trees = aligned, well-formed, complementary pairs; full chain ---- *)
+From DSD Require Import Base.Val Model.Loops Model.Peg Model.DispatchPeg Model.DispatchKernel
+  Proofs.C06 Proofs.RotTree Proofs.RotOnce Proofs.C13Kc Proofs.C12Tree.
+From DSDGen Require Import PilGrammar.
+
+(* tree_exists: guards = alignment, well-formedness, non-empty names, no empty strand *)
+Theorem C12_tree_exists : forall seq sst,
+  aligned seq sst -> wf sst -> Forall (fun x => x <> []) seq ->
+  nonempty_strands sPlus seq true = true ->
+  is_domainlevel_complement seq sst = Ok true ->
+  exists t, names_ok t = true /\ kp_ok t /\ flatten t = (seq, sst).
+Proof. exact tree_exists_strong. Qed.
+Print Assumptions C12_tree_exists.
+
+(* converse; kp_ok t: the name written at a closing bracket (toggle d) is a legal
+   name that toggles back (it excludes names such as a-star-star, plus-star and a lone star) *)
+Theorem C12_flatten_sound : forall t,
+  names_ok t = true -> kp_ok t ->
+  let seq := fst (flatten t) in let sst := snd (flatten t) in
+  aligned seq sst /\ wf sst /\ Forall (fun x => x <> []) seq /\
+  (nonempty_strands sPlus seq true = true -> is_domainlevel_complement seq sst = Ok true).
+Proof. exact flatten_sound. Qed.
+Print Assumptions C12_flatten_sound.
+
+(* both guards are needed *)
+Theorem C12_tree_exists_needs_nonempty_strands : ~ tree_exists_without_strand_guard_full.
+Proof. exact tree_exists_without_strand_guard_refuted. Qed.
+Print Assumptions C12_tree_exists_needs_nonempty_strands.
+
+Theorem C12_flatten_sound_needs_name_guard : ~ flatten_sound_without_name_guard_full.
+Proof. exact flatten_sound_without_name_guard_refuted. Qed.
+Print Assumptions C12_flatten_sound_needs_name_guard.
+
+(* kernel_roundtrip_model: kernel_string, the regenerated PIL grammar (PEG
+   interpreter, any sufficiently large fuel) and resolve_kernel_loops compose to
+   the identity; c12_chain = c12_chain_with (default_fuel pil_grammar) *)
+Theorem C12_kernel_roundtrip_tree : forall t,
+  t <> KNil -> ids_ok t = true ->
+  exists f0, forall fuel, (forall x, f0 <= fuel x) ->
+    c12_chain_with fuel (fst (flatten t)) (snd (flatten t)) =
+    VList [ VStr (join_names [32%N] (tree_texts t));
+            VList (map val_of_tok (items_toks (items_of t)));
+            of_ss (flatten t); VStr tag_kc; VStr [88%N]; of_nat 0 ].
+Proof. exact kernel_roundtrip_tree. Qed.
+Print Assumptions C12_kernel_roundtrip_tree.
+
+Theorem C12_kernel_roundtrip_model : forall seq sst,
+  seq <> [] -> aligned seq sst -> wf sst ->
+  Forall (fun x => x = sPlus \/ idname x = true) seq ->
+  nonempty_strands sPlus seq true = true ->
+  is_domainlevel_complement seq sst = Ok true ->
+  exists ks pattern f0,
+    kernel_string seq sst = Ok ks /\
+    forall fuel, (forall x, f0 <= fuel x) ->
+      c12_chain_with fuel seq sst =
+      VList [VStr ks; VList (map val_of_tok pattern); of_ss (seq, sst); VStr tag_kc; VStr [88%N]; of_nat 0].
+Proof. exact kernel_roundtrip_model. Qed.
+Print Assumptions C12_kernel_roundtrip_model.
+
+Theorem C12_chain_is_default_fuel_instance : forall seq sst,
+  c12_chain seq sst = c12_chain_with (default_fuel pil_grammar) seq sst.
+Proof. exact c12_chain_is_default. Qed.
+Print Assumptions C12_chain_is_default_fuel_instance.
